@@ -3,6 +3,7 @@
 From Coq Require Import List Bool Arith ZArith NArith Permutation.
 From XD Require Import lib.ListAux lib.Toposort model.Manager model.ManagerData
   proofs.ManagerIdx proofs.ManagerInv proofs.ManagerHist proofs.ManagerTrace proofs.ManagerDataInv.
+From XD Require Import model.TasksSem gen.GenTasks proofs.TasksSrc.
 Import ListNotations.
 Local Open Scope nat_scope.
 
@@ -75,8 +76,15 @@ Example C02_nonvacuous :
   nget (d_st (snd (fst (last (run_hist empty_mgr st ops) (empty_mgr, st, mkOut None []))))) [k; d] = Some (Leaf 16).
 Proof. cbn. split; reflexivity. Qed.
 
+(* tie to the source: the translated Manager.find_taskids (gen/GenTasks.v, regenerated on every run)
+   is the model's find_taskids *)
+Theorem C02_find_taskids_is_source : forall (sd order : list path) (m : dmgr),
+  src_find_taskids path_eqb sd order m = find_taskids path_eqb m sd order.
+Proof. exact (src_find_taskids_eq path_eqb). Qed.
+
 Print Assumptions C02_toposort.
 Print Assumptions C02_find_taskids.
 Print Assumptions C02_assignment.
 Print Assumptions C02_order_dag.
 Print Assumptions C02_nonvacuous.
+Print Assumptions C02_find_taskids_is_source.
